@@ -1418,7 +1418,57 @@ def check_cross(cx, kind, schema, ms, oks):
             if st != "ok" or not ok:
                 cx.fail(f"cross:numpy_value:{name}", f"ts.{name}_metadata[{i}] = {arr[i]!r} vs {_short(dec)}")
                 break
+    check_transplant(cx, tc, special, ms, decoy)
     cx.acc.count("cross_table_collections")
+
+
+def _raw_md(t, j):
+    off = t.metadata_offset
+    return t.metadata[int(off[j]):int(off[j + 1])].tobytes()
+
+
+def check_transplant(cx, tc, special, ms, decoy):
+    """A row object taken from a table with ONE schema and stored (t[j] = row, append(row)) in a table
+    with ANOTHER: the row's metadata object must be validated and encoded under the destination's
+    schema - never carried over as the source's bytes."""
+    src = getattr(tc, special)
+    if src.num_rows == 0:
+        return
+    dsrc = src.copy()
+    dsrc.metadata_schema = decoy
+    dv = {"q": 3, "w": "dec"}
+    dsrc.packset_metadata([decoy.validate_and_encode_row(dv)] * dsrc.num_rows)
+    for way, source, dst_schema in (("to-decoy", src, decoy), ("from-decoy", dsrc, ms)):
+        for op in ("setitem", "append"):
+            dst = source.copy()
+            dst.metadata_schema = dst_schema
+            st_o, obj = _call(lambda: source[0].metadata)
+            if st_o != "ok":
+                continue
+            st_e, want = _call(dst_schema.validate_and_encode_row, copy.deepcopy(obj))
+            row = source[0]  # fresh lazy row: its metadata has not been looked at
+            before = _raw_md(dst, 0)
+            n0 = dst.num_rows
+            if op == "setitem":
+                st, res = _call(dst.__setitem__, 0, row)
+                at = 0
+            else:
+                st, res = _call(dst.append, row)
+                at = n0
+            cx.acc.count("transplants")
+            if st_e == "ok":
+                if st != "ok":
+                    cx.fail(f"cross:transplant:{op}:raised", f"{special} {way}: storing a row whose metadata "
+                            f"{_short(obj)} is valid under the destination schema raised {res!r}")
+                elif _raw_md(dst, at) != want:
+                    cx.fail(f"cross:transplant:{op}:bytes", f"{special} {way}: stored {_raw_md(dst, at)!r}, the "
+                            f"destination schema encodes {_short(obj)} as {want!r}")
+            else:
+                if st == "ok":
+                    cx.fail(f"cross:transplant:{op}:accepted", f"{special} {way}: metadata {_short(obj)} violates the "
+                            f"destination schema ({want!r}) but the row was stored as {_raw_md(dst, at)!r}")
+                elif dst.num_rows != n0 or _raw_md(dst, 0) != before:
+                    cx.fail(f"cross:transplant:{op}:modified", f"{special} {way}: a refused row changed the table")
 
 
 def check_meta(case, acc, case_id):
